@@ -425,6 +425,30 @@ package sizes
 //@ property C09: (*treeRecord).initialize (*treeRecord).initialize$1 (*tagRecord).initialize (*tagRecord).initialize$1 (*Graph).RequireTreeSize (*Graph).RequireTagSize
 //@ property C07: (*HistorySize).recordReference (*HistorySize).recordReferenceGroup
 
+// ---------------------------------------------------------------- graph.go: orchestration (C01, C10, C18)
+// Root: ghost functions name what a root's methods return (they are pure).
+//@ spec rootWalk(r Iface) bool
+//@ spec rootOID(r Iface) OID
+//@ iface Root.Walk
+//@   pure
+//@   ensures result == rootWalk(self)
+//@ iface Root.OID
+//@   pure
+//@   ensures result == rootOID(self)
+//@ iface Root.Name
+//@   pure
+
+// The feeder: every root with Walk() is handed to `git rev-list --stdin`,
+// exactly once and with its own object id, and no other root is (C01:
+// "unselected references contribute nothing"; nothing selected is dropped).
+//@ func ScanRepositoryUsingGraph$1$1
+//@   modifies everything
+//@   ghost nAdd counts AddRoot
+//@   call 0 Walk as w
+//@   call 0 AddRoot assert w && arg_1 == rootOID(old(*roots)[rangeindex+1])
+//@   loop 0 step w ==> nAdd == prev(nAdd) + 1
+//@   loop 0 step !w ==> nAdd == prev(nAdd)
+
 // What git delivers is not ours to prove: each listed tree/tag exactly once
 // (A-GIT-REVLIST), parents before children and the tree of a commit before the
 // commit (A-GIT-ORDER, given the request order below), every deferred size
